@@ -35,7 +35,7 @@ def setup():
     load_modules(True)
 
 
-def h_bmc(K: int, alphabet: tuple, props: tuple, prefix: tuple = (), nchoices: int = 2, **sym):
+def h_bmc(K: int, alphabet: tuple, props: tuple, prefix: tuple = (), nchoices: int = 2, restore_at: int = -1, **sym):
     """K operations with symbolic kind and arguments from the empty queue, then the conservation drain.
     `prefix` fixes the kinds of the first operations (sharding); everything else is symbolic."""
     jobs, qserve = load_modules()
@@ -56,6 +56,8 @@ def h_bmc(K: int, alphabet: tuple, props: tuple, prefix: tuple = (), nchoices: i
         if not clock:
             c = 100  # no clock operation in this alphabet: deadlines are never observed, keep them concrete
         ops.append((o, sym["a%d" % i], sym["b%d" % i], c))
+    if restore_at >= 0:
+        ops.insert(restore_at, (qsim.RESTORE, 0, 0, 0))  # the server is stopped and restarted at this position
     choices = [sym["r%d" % i] for i in range(1, nchoices + 1)]
     return qsim.run_schedule(jobs, qserve, ops, choices, props)
 
@@ -152,7 +154,7 @@ def nf_prefix_ops(stages, sym):
     return ops
 
 
-def h_nf(stages: tuple, S: int, alphabet: tuple, props: tuple, nchoices: int = 2, **sym):
+def h_nf(stages: tuple, S: int, alphabet: tuple, props: tuple, nchoices: int = 2, restore_at: int = -1, **sym):
     """Jobs brought into symbolic-argument normal-form stages by real API calls, then S fully symbolic operations, then the drain."""
     jobs, qserve = load_modules()
     J = len(stages)
@@ -164,6 +166,8 @@ def h_nf(stages: tuple, S: int, alphabet: tuple, props: tuple, nchoices: int = 2
         assume(0 <= sym["wk%d" % j] < 3 - npend)
     ops = nf_prefix_ops(stages, sym)
     for i in range(1, S + 1):
+        if restore_at == i - 1:
+            ops.append((qsim.RESTORE, 0, 0, 0))
         o = sym["o%d" % i]
         ok = False
         for x in alphabet:
@@ -172,6 +176,8 @@ def h_nf(stages: tuple, S: int, alphabet: tuple, props: tuple, nchoices: int = 2
                 break
         assume(ok)
         ops.append((o, sym["a%d" % i], sym["b%d" % i], sym["c%d" % i]))
+    if restore_at == S:
+        ops.append((qsim.RESTORE, 0, 0, 0))
     choices = [sym["r%d" % i] for i in range(1, nchoices + 1)]
     return qsim.run_schedule(jobs, qserve, ops, choices, props)
 
@@ -223,10 +229,15 @@ def replay_history(cand: dict, props) -> dict:
     if not isinstance(d, dict):
         d = cand.get("detail")
     args = cand["args"]
+    ra = args.get("restore_at", -1)
     if "stages" in args:
         ops = nf_prefix_ops(tuple(args["stages"]), args)
         for i in range(1, args["S"] + 1):
+            if ra == i - 1:
+                ops.append((qsim.RESTORE, 0, 0, 0))
             ops.append((args["o%d" % i], args["a%d" % i], args["b%d" % i], args["c%d" % i]))
+        if ra == args["S"]:
+            ops.append((qsim.RESTORE, 0, 0, 0))
     else:
         prefix = list(args.get("prefix") or [])
         K = args["K"]
@@ -235,6 +246,8 @@ def replay_history(cand: dict, props) -> dict:
             o = prefix[i - 1] if i <= len(prefix) else args["o%d" % i]
             c = args["c%d" % i] if qsim.TICK in args["alphabet"] else 100
             ops.append((o, args["a%d" % i], args["b%d" % i], c))
+        if ra >= 0:
+            ops.insert(ra, (qsim.RESTORE, 0, 0, 0))
     choices = [args["r%d" % i] for i in range(1, args.get("nchoices", 2) + 1)]
     import logging
 
@@ -323,3 +336,17 @@ def gevent_replay(history):
     lost = [j for j in unfinished if j not in held and j not in drained]
     dup = [j for j in set(held + drained) if (held + drained).count(j) > 1]
     return {"ran": True, "accepted": accepted, "held_by_workers": got, "drained": drained, "lost": lost, "duplicated": dup}
+
+
+def with_restore(cubes, positions):
+    """Clone cubes, inserting the stop/restart step at each of the given positions of the symbolic part."""
+    from vlib.runner import Cube
+
+    out = []
+    for c in cubes:
+        for p in positions:
+            f = dict(c.fixed)
+            f["restore_at"] = p
+            out.append(Cube(c.name + f" restart@{p}", c.fn, c.params, f, timeout=c.timeout,
+                            per_path_timeout=c.per_path_timeout, group=c.group))
+    return out
